@@ -241,7 +241,12 @@ class SigmaFilter(SigmaRuleBase):
         # Using a single prefix (rather than a fresh random name per identifier) preserves
         # the structure of the original identifier names so that wildcard patterns in the
         # filter condition (e.g. "1 of selection_*") continue to work after renaming.
-        prefix = "_filt_" + "".join(random.choices(string.ascii_lowercase, k=10))
+        # The prefix is drawn again if detections of the rule (or of a filter applied before) start
+        # with it: they would be overwritten or captured by the patterns of this filter.
+        while True:
+            prefix = "_filt_" + "".join(random.choices(string.ascii_lowercase, k=10))
+            if not any(name.startswith(prefix + "_") for name in rule.detection.detections):
+                break
 
         # Rename every filter detection identifier with the shared prefix.
         for original_cond_name, condition in self.filter.detections.items():
